@@ -94,7 +94,7 @@ func crashStates(log []crashdb.Unit) ([]crashState, string) {
 	return states, ""
 }
 
-type c13stats struct{ histories, commits, crashStates int64 }
+type c13stats struct{ histories, commits, crashStates, partial int64 }
 
 func runC13(h rmHist, st *c13stats) (out []*c12result) {
 	defer func() {
@@ -164,6 +164,9 @@ func runC13(h rmHist, st *c13stats) (out []*c12result) {
 		for _, cs := range states {
 			cs := cs
 			atomic.AddInt64(&st.crashStates, 1)
+			if len(cs.units) > 0 && len(cs.units) < len(rec.log) {
+				atomic.AddInt64(&st.partial, 1)
+			}
 			func() {
 				cdb := crashdb.FromSnapshot(rec.pre, cs.units)
 				s2, err := rmOpen(cdb, h.N, h.Pruning, -1)
@@ -335,6 +338,9 @@ func runC13app(hist []chain.Block, pruning [2]int64, st *c13stats) (out []*c12re
 		}
 		for _, cs := range states {
 			atomic.AddInt64(&st.crashStates, 1)
+			if len(cs.units) > 0 && len(cs.units) < len(rc.log) {
+				atomic.AddInt64(&st.partial, 1)
+			}
 			where := classifyCrash(cs, rc.log)
 			if h == 1 {
 				where += "|first-commit"
@@ -464,13 +470,13 @@ func C13(tier string) int {
 	wg.Wait()
 	run.Set("app_level_histories_x_prunings", appRuns)
 	run.Set("evaluations", st.crashStates)
-	run.Set("distinct_nontrivial", st.crashStates)
+	run.Set("distinct_nontrivial", st.partial)
 	run.Set("histories", total)
 	run.Set("histories_fully_passed", st.histories)
 	run.Set("commits", st.commits)
 	run.Set("crash_states", st.crashStates)
 	run.Set("jobs", desc)
-	run.Set("rule", "for every write history, every commit, every crash state = pre-commit database + a subset of substores fully committed + at most one substore between its save batch and its prune batch (commutation closure over substore order), plus the complete commit; each crash state is reopened, checked for a single consistent version, the interrupted block re-executed and one more block committed; every crash state is distinct by construction")
+	run.Set("rule", "for every write history, every commit, every crash state = pre-commit database + a subset of substores fully committed + at most one substore between its save batch and its prune batch (commutation closure over substore order), plus the complete commit; each crash state is reopened, checked for a single consistent version, the interrupted block re-executed and one more block committed; every crash state is distinct by construction (history, commit, set of applied write units); non-trivial = a proper partial state: at least one and not all of the commit's write units reached the database")
 	run.Sample("N=2 pruning=(0,0) v1[k1=a | k2=a] v2[del k1 | -], crash during commit 2 at [done={s1}+s2:1/2]")
 	run.Assume("a Batch.Write is atomic (goleveldb journal); Write and WriteSync are not distinguished", "units of different substores touch disjoint key prefixes (checked on every log)", "MemDB stands in for the on-disk database")
 	return run.Finish()
